@@ -205,6 +205,70 @@ def fcOutEventsOk (f : FC) : Bool :=
   f.interfaces.all (fun i => i.events.all (fun e =>
     e.dir = .in_ || (e.replyType = [L "void"] && e.formals.all (fun x => x.dir ≠ .out))))
 
+/-! ### C15 on the *input*: documents that must be refused
+
+What the JSON document says, read without the parser: an event written with direction "out" whose signature lists a
+formal written with direction "out", in the events of an interface that is an element of the root or of (nested)
+namespaces.  No outcome of parsing such a document is a success — whatever else the document contains. -/
+
+def jDirIsOut (kvs : List (Str × JVal)) : Bool :=
+  match JVal.lookup (L "direction") kvs with
+  | some v => v.eqStr (L "out")
+  | none => false
+
+def jFormalIsOut : JVal → Bool
+  | .obj kvs => jDirIsOut kvs
+  | _ => false
+
+def jFormalsOf (kvs : List (Str × JVal)) : List JVal :=
+  match JVal.lookup (L "signature") kvs with
+  | some (.obj sg) =>
+    match JVal.lookup (L "formals") sg with
+    | some (.obj fm) =>
+      match JVal.lookup (L "elements") fm with
+      | some (.arr fs) => fs
+      | _ => []
+    | _ => []
+  | _ => []
+
+def jBadEvent : JVal → Bool
+  | .obj kvs => jDirIsOut kvs && (jFormalsOf kvs).any jFormalIsOut
+  | _ => false
+
+def jEventsOf (kvs : List (Str × JVal)) : List JVal :=
+  match JVal.lookup (L "events") kvs with
+  | some (.obj ev) =>
+    match JVal.lookup (L "elements") ev with
+    | some (.arr es) => es
+    | _ => []
+  | _ => []
+
+/-- one element of an `elements` list: a namespace (look into its elements with `inner`) or an interface -/
+def jBadElem (inner : List JVal → Bool) : JVal → Bool
+  | .obj kvs =>
+    match JVal.lookup (L "<class>") kvs with
+    | some cls =>
+      if cls.eqStr (L "namespace") then
+        match JVal.lookup (L "elements") kvs with
+        | some (.arr es) => inner es
+        | _ => false
+      else if cls.eqStr (L "interface") then (jEventsOf kvs).any jBadEvent
+      else false
+    | none => false
+  | _ => false
+
+/-- `fuel` bounds the namespace nesting that is looked into -/
+def jBadElems : Nat → List JVal → Bool
+  | 0, _ => false
+  | n + 1, l => l.any (jBadElem (jBadElems n))
+
+def jBadDoc (fuel : Nat) : JVal → Bool
+  | .obj kvs =>
+    match JVal.lookup (L "elements") kvs with
+    | some (.arr es) => jBadElems fuel es
+    | _ => false
+  | _ => false
+
 /-! ### C14 specifications -/
 
 /-- the scope chain: the searched name prefixed by the calling scope and each enclosing scope down
